@@ -45,10 +45,15 @@ from ._agga import cond_number, fail, qp_enum_psd, sigma_max, small, tdtype, to6
 
 RULE = ("aggregator configuration (Mean, Sum, Constant x2, ConFIG x2, PCGrad, Random, UPGrad x3 with pref vectors) x "
         "matrix family x shape x dtype x (c1, c2) with entries log-uniform over up to 6 decades x (a, b) log-uniform in "
-        "1e-2..1e2 x torch seed; UPGrad additionally over the reg_eps ladder. distinct = (aggregator spec, matrix spec, "
+        "1e-2..1e2 x torch seed; UPGrad additionally over the reg_eps ladder; + the 'magnitude' family: the same "
+        "aggregators on Jacobians of magnitude 1e-8..1e-13 (vanishing gradients; 30%: 1e8..1e13) with c over 2..6 "
+        "decades, so that some rows of diag(c) J have a non-zero norm far below any absolute guard (1e-12, the dtype's "
+        "eps, ...) while others do not: every aggregator that normalises rows must do it relative to the row (UPGrad "
+        "there with norm_eps = 1e-30 so that s_k >= norm_eps still holds). distinct = (aggregator spec, matrix spec, "
         "c-seed); non-trivial = m >= 2, J != 0 and c1 not proportional to c2 (for UPGrad additionally: some pair of "
         "rows conflicts, so that the projection is active)")
-BOUNDS = ("m <= 6, n <= 8; c entries in 1e-3..1e3; reg_eps ladder 1e-2,1e-4,1e-6,1e-8,1e-10,1e-12 (float64), "
+BOUNDS = ("m <= 6, n <= 8; c entries in 1e-3..1e3; |J| 1e-13..1e13 in float64, 1e-11..1e11 with c in 1e-2..1e2 in float32 "
+          "(squares of the row norms stay normal float32 numbers); reg_eps ladder 1e-2,1e-4,1e-6,1e-8,1e-10,1e-12 (float64), "
           "1e-2,1e-4,1e-6 (float32)")
 EXHAUSTIVE = ""
 
@@ -100,6 +105,29 @@ def cases(tier, seed, focus=None):
         if kind == "rowscales":
             mat["decades"] = rng.choice([2, 6])
         out.append({"agg": spec, "mat": mat, "cseed": rng.randrange(10**6), "decades": rng.choice([0.5, 2, 4, 6, 6]),
+                    "seed": rng.randrange(10**6)})
+    # ---- magnitude family (own random stream: the cases above are unchanged)
+    rng = random.Random(90900 + seed)
+    for i in range(300 if tier == "quick" else 6000):
+        spec = AGGS[i % len(AGGS)]
+        name = spec["name"]
+        dtype = rng.choice(["float64", "float64", "float32"])
+        m, n = rng.randint(2, 6), rng.randint(1, 8)
+        kind = rng.choice(["gauss", "gauss", "antiparallel", "stationary", "nonconflict", "wellcond", "lowrank", "zerorow"])
+        if name == "ConFIG":
+            kind = rng.choice(["wellcond", "gauss", "nonconflict"])
+            m, n = min(m, n), max(m, n)
+        if kind == "wellcond" and m > n:
+            kind = "gauss"
+        mag = rng.uniform(8.0, 13.0 if dtype == "float64" else 11.0)
+        mat = {"kind": kind, "m": m, "n": n, "seed": rng.randrange(10**6), "dtype": dtype,
+               "scale": 10.0 ** (-mag if rng.random() < 0.7 else mag)}
+        if kind == "lowrank":
+            mat["rank"] = rng.randint(1, max(1, min(m, n) - 1))
+        if name == "UPGrad":
+            spec = dict(spec, norm_eps=1e-30)
+        out.append({"agg": spec, "mat": mat, "cseed": rng.randrange(10**6),
+                    "decades": rng.choice([2, 4, 6, 6] if dtype == "float64" else [2, 4, 4]),
                     "seed": rng.randrange(10**6)})
     return out
 
@@ -186,7 +214,7 @@ def run_case(case):
         return {"ok": True, "sig": sig, "nontrivial": nontrivial, "note": f"{defect / tol if tol > 0 else 0:.2e}"}
 
     # ---------------------------------------------------------------- UPGrad: regularisation defect along the ladder
-    ne = 1e-4
+    ne = spec.get("norm_eps", 1e-4)
     sk = [sigma_max(M) for M in Jk64]
     if min(sk) < ne * 1.01:
         return {"ok": True, "sig": sig, "nontrivial": False, "note": "s < norm_eps for one of the three matrices"}
